@@ -66,6 +66,11 @@ func main() {
 		}
 		return
 	}
+	cleanup := func() {}
+	quit := func(code int) {
+		cleanup()
+		os.Exit(code)
+	}
 	dir := *work
 	if dir == "" {
 		dir, err = os.MkdirTemp("", "govc.")
@@ -74,7 +79,8 @@ func main() {
 			os.Exit(2)
 		}
 		if !*keep {
-			defer os.RemoveAll(dir)
+			cleanup = func() { os.RemoveAll(dir) }
+			defer cleanup()
 		}
 	} else {
 		os.MkdirAll(dir, 0o755)
@@ -96,7 +102,7 @@ func main() {
 		return
 	}
 	if *crosscheck {
-		os.Exit(runCrossCheck(p, *repo, dir, *prop))
+		quit(runCrossCheck(p, *repo, dir, *prop))
 	}
 	// select functions
 	var fns []string
@@ -119,7 +125,7 @@ func main() {
 	}
 	if len(fns) == 0 && len(lemmas) == 0 {
 		fmt.Fprintf(os.Stderr, "govc: no function under contract for %q\n", *prop+*onlyFn)
-		os.Exit(2)
+		quit(2)
 	}
 
 	type obRec struct {
@@ -359,10 +365,10 @@ func main() {
 		os.MkdirAll(filepath.Dir(*evidence), 0o755)
 		if err := os.WriteFile(*evidence, data, 0o644); err != nil {
 			fmt.Fprintln(os.Stderr, "govc: evidence:", err)
-			os.Exit(2)
+			quit(2)
 		}
 	}
-	os.Exit(exit)
+	quit(exit)
 }
 
 func trustedBase(p *vc.Program, assume []string) []string {
